@@ -165,6 +165,12 @@ def is_zip_call(t: T) -> bool:
         not t.args[2] and not any(a.op == "star" for a in t.args[1])
 
 
+# pure methods of a constant string (on constant string arguments)
+_STR_FOLDS = frozenset((".lower", ".upper", ".strip", ".lstrip", ".rstrip",
+                        ".startswith", ".endswith", ".casefold", ".title",
+                        ".capitalize", ".removeprefix", ".removesuffix"))
+
+
 def _own_jumps(body) -> bool:
     """does a loop body contain a break / continue of *this* loop (jumps
     inside nested loops belong to those)"""
@@ -972,6 +978,8 @@ class Interp:
         outs = [(live_body, env_b, attrs_b, None)]
         for h, ht in zip(s.handlers, htypes):
             atom = T("exc", ht, tid)
+            if self.assume(atom) is False:
+                continue       # the configuration excludes this exception
             # handler starts from the state before the try, with everything
             # assigned in the body possibly updated
             frame.env = self._join(T("partial", tid), env_b, env0)
@@ -1836,6 +1844,17 @@ class Interp:
             return tm.ite(fn.args[0], a, b)
 
         # ---- special forms folded by the interpreter itself
+        if fn.op == "attr" and name in _STR_FOLDS and not kwargs:
+            ru = self.unname(fn.args[0])
+            au = [self.unname(a) for a in args]
+            if tm.is_const(ru) and isinstance(tm.const_val(ru), str) and \
+                    all(tm.is_const(a) and isinstance(tm.const_val(a), str)
+                        for a in au):
+                try:
+                    return const(getattr(tm.const_val(ru), name[1:])(
+                        *[tm.const_val(a) for a in au]))
+                except (TypeError, ValueError):
+                    pass
         if name == "builtins.super":
             c = frame.func.cls if frame.func is not None else None
             if args and args[0].op == "cls":
@@ -1967,6 +1986,9 @@ class Interp:
         c = None
         if obj.op == "call" and obj.args[0].op == "cls":
             c = self.prog.classes.get(obj.args[0].args[0])
+        if self.unname(obj).op == "enum":
+            # a member of an enumeration is an instance of it
+            c = self.prog.classes.get(self.unname(obj).args[0])
         if c is None:
             return None
         tys = types.args if types.op == "tuple" else (types,)
